@@ -1,8 +1,435 @@
 /-
-  C20 — a configuration reload keeps serving and applies exactly the changes.  (theorems: see below)
+  C20 — a configuration reload keeps serving and applies exactly the changes.
+
+  On SIGHUP `mainLoop` runs `initializePeers` and `initializeListeners` again.  The model (`Lmd.Reload`) describes
+  the peer map before the reload as `old : List (Conn × Nat)` - every configured connection together with the
+  generation number that identifies its `Peer` object (and with it the cache, the counters, the update loop) - and
+  `next`, the first unused generation number.  `reloadPlan old conns next` is the list of decisions for the new
+  configuration `conns` (`.keep g`: the object `g` stays; `.create g`: a new object `g` is made and synchronised),
+  `reloadResult` the peer map afterwards, `reloadListeners old new` what happens to the listeners.
+
+  Theorems:
+   1  `order_is_configuration`   the peer map lists exactly the configured connections, in configuration order
+   2  `unchanged_keeps_peer`, `unchanged_in_result`   an unchanged definition keeps its peer object
+   3  `changed_gets_new_peer`, `created_is_new`, `created_distinct`, `created_consecutive`
+   4  `keep_iff_unchanged`, `decision_unique`, `rename_forces_new_peer`, `sources_change_forces_new_peer`,
+      `flags_change_forces_new_peer`
+   5  `removed_gone`
+   6  `noop_reload`, `reload_idempotent`
+   7  `gens_stay_distinct`, `invariant_preserved`, `invariant_preserved_many`
+   8  `listeners_match`, `listeners_kept`, `listeners_closed`, `listeners_opened`, `listeners_kept_not_closed`,
+      `listeners_noop`
 -/
-import Lmd.PeerLoop
+import Lmd.Lemmas.ReloadLemmas
 
 namespace Lmd.C20
+open Lmd.ReloadLemmas
+
+/-! ## 0. well-formedness of configurations and peer maps -/
+
+/-- the connection ids of a configuration are pairwise different (lmd exits on a duplicate id) -/
+def IdsDistinct (conns : List Conn) : Prop := (conns.map (·.id)).Nodup
+
+/-- the connection ids of a peer map are pairwise different -/
+def PeerIdsDistinct (old : List (Conn × Nat)) : Prop := IdsDistinct (old.map (·.1))
+
+/-- every generation number in the peer map is below the counter -/
+def GensBelow (old : List (Conn × Nat)) (next : Nat) : Prop := ∀ p ∈ old, p.2 < next
+
+/-- the peer objects of the map are pairwise different -/
+def GensDistinct (old : List (Conn × Nat)) : Prop := (old.map (·.2)).Nodup
+
+instance (conns : List Conn) : Decidable (IdsDistinct conns) := by unfold IdsDistinct; infer_instance
+instance (old : List (Conn × Nat)) : Decidable (PeerIdsDistinct old) := by unfold PeerIdsDistinct; infer_instance
+instance (old : List (Conn × Nat)) (n : Nat) : Decidable (GensBelow old n) := by unfold GensBelow; infer_instance
+instance (old : List (Conn × Nat)) : Decidable (GensDistinct old) := by unfold GensDistinct; infer_instance
+
+theorem PeerIdsDistinct.ids {old : List (Conn × Nat)} (h : PeerIdsDistinct old) : (old.map (·.1.id)).Nodup := by
+  unfold PeerIdsDistinct IdsDistinct at h
+  rwa [List.map_map] at h
+
+/-! ## a concrete reload for the examples -/
+
+def b0 : Conn := { id := "id0", name := "b0", sources := ["b0.sock"], flags := [] }
+def b1 : Conn := { id := "id1", name := "b1", sources := ["b1.sock"], flags := [] }
+def b2 : Conn := { id := "id2", name := "b2", sources := ["b2.sock"], flags := [] }
+/-- `b1` with a new display name -/
+def b1r : Conn := { b1 with name := "renamed" }
+
+def exOld : List (Conn × Nat) := [(b0, 0), (b1, 1)]
+def exConns : List Conn := [b1r, b2, b0]
+
+/-- the reload of the task description: the renamed and the added backend get new peers 2 and 3, the unchanged
+    backend keeps peer 0, the counter ends at 4 -/
+example : reloadPlan exOld exConns 2 = ([(b1r, .create 2), (b2, .create 3), (b0, .keep 0)], 4) := by decide
+
+example : reloadResult exOld exConns 2 = ([(b1r, 2), (b2, 3), (b0, 0)], 4) := by decide
+
+example : PeerIdsDistinct exOld ∧ GensDistinct exOld ∧ GensBelow exOld 2 ∧ IdsDistinct exConns := by decide
+
+/-! ## 1. the peer map follows the configuration -/
+
+/-- `order_is_configuration`: after a reload the peer map lists exactly the configured connections, in the order
+    of the configuration file - whatever the peer map was before.  So removed backends are gone and added ones are
+    present (this is also the order of the sites table). -/
+theorem order_is_configuration (old : List (Conn × Nat)) (conns : List Conn) (next : Nat) :
+    (reloadResult old conns next).1.map (·.1) = conns :=
+  result_map_fst old conns next
+
+example : (reloadResult exOld exConns 2).1.map (·.1) = [b1r, b2, b0] := by decide
+
+/-- the plan has one decision per configured connection, in configuration order -/
+theorem plan_is_configuration (old : List (Conn × Nat)) (conns : List Conn) (next : Nat) :
+    (reloadPlan old conns next).1.map (·.1) = conns :=
+  plan_map_fst old conns next
+
+/-! ## 2. unchanged backends keep their peer -/
+
+/-- `unchanged_keeps_peer`: a backend whose definition is configured exactly as before keeps its `Peer` object:
+    the decision is `.keep g` with the old generation - same object, hence the same cache and counters, and no
+    new connection is made. -/
+theorem unchanged_keeps_peer {old : List (Conn × Nat)} {conns : List Conn} (next : Nat) {c : Conn} {g : Nat}
+    (hold : (c, g) ∈ old) (hids : PeerIdsDistinct old) (hc : c ∈ conns) :
+    (c, Decision.keep g) ∈ (reloadPlan old conns next).1 :=
+  keep_mem_plan next hc (lookup_of_mem hids.ids hold)
+
+/-- `unchanged_in_result`: the entry of an unchanged backend is in the peer map after the reload, with the same
+    peer object. -/
+theorem unchanged_in_result {old : List (Conn × Nat)} {conns : List Conn} (next : Nat) {c : Conn} {g : Nat}
+    (hold : (c, g) ∈ old) (hids : PeerIdsDistinct old) (hc : c ∈ conns) :
+    (c, g) ∈ (reloadResult old conns next).1 :=
+  mem_result.2 ⟨.keep g, unchanged_keeps_peer next hold hids hc, rfl⟩
+
+example : (b0, 0) ∈ exOld ∧ PeerIdsDistinct exOld ∧ b0 ∈ exConns := by decide
+
+/-- the distinct-ids hypothesis is needed: when the old map has two entries with one id, the definition that is
+    not the first one is not recognised. -/
+example : (b1r, 7) ∈ [(b1, 1), (b1r, 7)] ∧ b1r ∈ [b1r] ∧
+    (b1r, Decision.keep 7) ∉ (reloadPlan [(b1, 1), (b1r, 7)] [b1r] 8).1 := by decide
+
+/-! ## 3. added and changed backends get a new peer -/
+
+/-- `changed_gets_new_peer`: a configured connection that is not in the old peer map with exactly this definition
+    (a new id, or a known id with any field changed) gets a new `Peer` object: every decision for it is a
+    `.create g'`, there is one, and `g'` is one of the generation numbers handed out by this reload
+    (`next ≤ g' < new counter`). -/
+theorem changed_gets_new_peer {old : List (Conn × Nat)} {conns : List Conn} (next : Nat) {c : Conn}
+    (hc : c ∈ conns) (hnew : ∀ g, (c, g) ∉ old) :
+    (∃ g', (c, Decision.create g') ∈ (reloadPlan old conns next).1 ∧
+        next ≤ g' ∧ g' < (reloadPlan old conns next).2) ∧
+      ∀ d, (c, d) ∈ (reloadPlan old conns next).1 →
+        ∃ g', d = Decision.create g' ∧ next ≤ g' ∧ g' < (reloadPlan old conns next).2 := by
+  have hl := lookup_none_of_not_mem hnew
+  refine ⟨create_mem_plan next hc hl, ?_⟩
+  intro d hd
+  cases d with
+  | keep g =>
+    have := (mem_plan_keep hd).2
+    rw [hl] at this
+    cases this
+  | create g => exact ⟨g, rfl, (mem_plan_create hd).2.2⟩
+
+example : b2 ∈ exConns ∧ ∀ g, g < 5 → (b2, g) ∉ exOld := by decide
+
+/-- `created_is_new`: when all old generations are below the counter, the generation of a created peer differs
+    from every generation in the old peer map - it is a genuinely new object. -/
+theorem created_is_new {old : List (Conn × Nat)} {conns : List Conn} {next : Nat} {c : Conn} {g' : Nat}
+    (hbelow : GensBelow old next) (h : (c, Decision.create g') ∈ (reloadPlan old conns next).1) :
+    ∀ p ∈ old, p.2 ≠ g' := by
+  intro p hp heq
+  have h1 := hbelow p hp
+  have h2 := (mem_plan_create h).2.2.1
+  omega
+
+/-- `created_distinct`: two created peers get different generations: one generation number is handed out to one
+    connection only, two different positions of the plan never carry the same created generation, and the
+    created generations (in plan order) have no duplicates. -/
+theorem created_distinct (old : List (Conn × Nat)) (conns : List Conn) (next : Nat) :
+    (∀ c₁ c₂ g, (c₁, Decision.create g) ∈ (reloadPlan old conns next).1 →
+        (c₂, Decision.create g) ∈ (reloadPlan old conns next).1 → c₁ = c₂) ∧
+      (reloadPlan old conns next).1.Pairwise
+        (fun p q => ∀ g, p.2 = Decision.create g → q.2 ≠ Decision.create g) ∧
+      (createdGens (reloadPlan old conns next).1).Nodup := by
+  refine ⟨create_gen_inj old conns next, create_pairwise old conns next, ?_⟩
+  rw [createdGens_plan]
+  exact List.nodup_range'
+
+/-- `created_consecutive`: the created peers get, in configuration order, exactly the numbers from the old counter
+    up to the new counter; and the counter advances by the number of connections without an exactly equal old
+    entry. -/
+theorem created_consecutive (old : List (Conn × Nat)) (conns : List Conn) (next : Nat) :
+    createdGens (reloadPlan old conns next).1 = List.range' next ((reloadPlan old conns next).2 - next) ∧
+      (reloadPlan old conns next).2 = next + (conns.filter (fun c => (lookup old c).isNone)).length :=
+  ⟨createdGens_plan old conns next, plan_counter_eq old conns next⟩
+
+example : createdGens (reloadPlan exOld exConns 2).1 = [2, 3] := by decide
+
+/-! ## 4. kept exactly when unchanged -/
+
+/-- `keep_iff_unchanged`: the decision for a configured connection is a `.keep` exactly when the old peer map has
+    an entry with exactly the same definition; and then the kept object is that entry's. -/
+theorem keep_iff_unchanged {old : List (Conn × Nat)} {conns : List Conn} (next : Nat) {c : Conn}
+    (hids : PeerIdsDistinct old) (hc : c ∈ conns) (g : Nat) :
+    (c, Decision.keep g) ∈ (reloadPlan old conns next).1 ↔ (c, g) ∈ old :=
+  ⟨fun h => lookup_some_mem (mem_plan_keep h).2, fun h => unchanged_keeps_peer next h hids hc⟩
+
+/-- `keep_implies_unchanged`: a `.keep g` is only ever decided for a connection whose exact definition is in the
+    old peer map with generation `g` (no hypothesis on the maps). -/
+theorem keep_implies_unchanged {old : List (Conn × Nat)} {conns : List Conn} {next : Nat} {c : Conn} {g : Nat}
+    (h : (c, Decision.keep g) ∈ (reloadPlan old conns next).1) : (c, g) ∈ old ∧ c ∈ conns :=
+  ⟨lookup_some_mem (mem_plan_keep h).2, (mem_plan_keep h).1⟩
+
+/-- `decision_unique`: with distinct ids on both sides, the decision for a connection is determined: two plan
+    entries for the same connection are the same. -/
+theorem decision_unique {old : List (Conn × Nat)} {conns : List Conn} {next : Nat} {c : Conn} {d₁ d₂ : Decision}
+    (hconns : IdsDistinct conns)
+    (h₁ : (c, d₁) ∈ (reloadPlan old conns next).1) (h₂ : (c, d₂) ∈ (reloadPlan old conns next).1) :
+    d₁ = d₂ := by
+  have hn : ((reloadPlan old conns next).1.map (·.1)).Nodup := by
+    rw [plan_map_fst]
+    exact nodup_of_nodup_map _ _ hconns
+  have := eq_of_nodup_map (·.1) _ hn _ h₁ _ h₂ rfl
+  cases this
+  rfl
+
+/-- a definition that differs from an old entry with the same id is not in the old peer map (distinct ids) -/
+theorem not_mem_of_changed {old : List (Conn × Nat)} {c c' : Conn} {g : Nat}
+    (hids : PeerIdsDistinct old) (hold : (c, g) ∈ old) (hid : c'.id = c.id) (hne : c' ≠ c) :
+    ∀ g', (c', g') ∉ old := by
+  intro g' hm
+  have := eq_of_nodup_map (·.1.id) old hids.ids _ hm _ hold hid
+  cases this
+  exact hne rfl
+
+/-- `change_forces_new_peer`: a configured connection with the id of an old backend but any difference in its
+    definition gets a new peer. -/
+theorem change_forces_new_peer {old : List (Conn × Nat)} {conns : List Conn} (next : Nat) {c c' : Conn} {g : Nat}
+    (hids : PeerIdsDistinct old) (hold : (c, g) ∈ old) (hid : c'.id = c.id) (hne : c' ≠ c) (hc : c' ∈ conns) :
+    ∃ g', (c', Decision.create g') ∈ (reloadPlan old conns next).1 ∧
+      next ≤ g' ∧ g' < (reloadPlan old conns next).2 :=
+  (changed_gets_new_peer next hc (not_mem_of_changed hids hold hid hne)).1
+
+/-- `rename_forces_new_peer`: changing only the name of a backend forces a new peer. -/
+theorem rename_forces_new_peer {old : List (Conn × Nat)} {conns : List Conn} (next : Nat) {c : Conn} {g : Nat}
+    {name : String} (hids : PeerIdsDistinct old) (hold : (c, g) ∈ old) (hne : name ≠ c.name)
+    (hc : { c with name := name } ∈ conns) :
+    ∃ g', ({ c with name := name }, Decision.create g') ∈ (reloadPlan old conns next).1 ∧
+      next ≤ g' ∧ g' < (reloadPlan old conns next).2 :=
+  change_forces_new_peer next hids hold rfl (fun h => hne (congrArg Conn.name h)) hc
+
+/-- `sources_change_forces_new_peer`: changing only the sources (addresses) of a backend forces a new peer. -/
+theorem sources_change_forces_new_peer {old : List (Conn × Nat)} {conns : List Conn} (next : Nat) {c : Conn}
+    {g : Nat} {sources : List String} (hids : PeerIdsDistinct old) (hold : (c, g) ∈ old)
+    (hne : sources ≠ c.sources) (hc : { c with sources := sources } ∈ conns) :
+    ∃ g', ({ c with sources := sources }, Decision.create g') ∈ (reloadPlan old conns next).1 ∧
+      next ≤ g' ∧ g' < (reloadPlan old conns next).2 :=
+  change_forces_new_peer next hids hold rfl (fun h => hne (congrArg Conn.sources h)) hc
+
+/-- `flags_change_forces_new_peer`: changing only the flags of a backend forces a new peer. -/
+theorem flags_change_forces_new_peer {old : List (Conn × Nat)} {conns : List Conn} (next : Nat) {c : Conn}
+    {g : Nat} {flags : List String} (hids : PeerIdsDistinct old) (hold : (c, g) ∈ old)
+    (hne : flags ≠ c.flags) (hc : { c with flags := flags } ∈ conns) :
+    ∃ g', ({ c with flags := flags }, Decision.create g') ∈ (reloadPlan old conns next).1 ∧
+      next ≤ g' ∧ g' < (reloadPlan old conns next).2 :=
+  change_forces_new_peer next hids hold rfl (fun h => hne (congrArg Conn.flags h)) hc
+
+example : PeerIdsDistinct exOld ∧ (b1, 1) ∈ exOld ∧ "renamed" ≠ b1.name ∧
+    ({ b1 with name := "renamed" } : Conn) ∈ exConns := by decide
+
+/-! ## 5. removed backends disappear -/
+
+/-- `removed_gone`: a connection id that is not configured any more does not occur in the peer map after the
+    reload (so it is gone from results and from the sites table) - in particular the id of an old backend. -/
+theorem removed_gone (old : List (Conn × Nat)) (conns : List Conn) (next : Nat) (id : String)
+    (hgone : id ∉ conns.map (·.id)) :
+    id ∉ (reloadResult old conns next).1.map (·.1.id) := by
+  have : (reloadResult old conns next).1.map (·.1.id) = conns.map (·.id) := by
+    have h := congrArg (List.map Conn.id) (order_is_configuration old conns next)
+    rwa [List.map_map] at h
+  rwa [this]
+
+example : "id1" ∈ exOld.map (·.1.id) ∧ "id1" ∉ [b0, b2].map (·.id) := by decide
+
+/-- no entry of a removed backend survives, whatever its generation -/
+theorem removed_gone_entry (old : List (Conn × Nat)) (conns : List Conn) (next : Nat) (c : Conn) (g : Nat)
+    (hgone : c.id ∉ conns.map (·.id)) : (c, g) ∉ (reloadResult old conns next).1 := by
+  intro hm
+  apply removed_gone old conns next c.id hgone
+  exact List.mem_map_of_mem (f := (·.1.id)) hm
+
+/-! ## 6. reloading the configuration in force changes nothing -/
+
+/-- `noop_reload`: reloading the configuration that is in force changes nothing: every peer object stays, in the
+    same order, and no generation number is used. -/
+theorem noop_reload (old : List (Conn × Nat)) (next : Nat) (hids : PeerIdsDistinct old) :
+    reloadResult old (old.map (·.1)) next = (old, next) :=
+  result_of_sub hids.ids old next (fun _ h => h)
+
+example : PeerIdsDistinct exOld ∧ reloadResult exOld (exOld.map (·.1)) 2 = (exOld, 2) := by decide
+
+/-- all decisions of such a reload are `.keep` -/
+theorem noop_reload_plan (old : List (Conn × Nat)) (next : Nat) (hids : PeerIdsDistinct old) :
+    reloadPlan old (old.map (·.1)) next = (old.map (fun p => (p.1, Decision.keep p.2)), next) :=
+  plan_of_sub hids.ids old next (fun _ h => h)
+
+/-- `reload_idempotent`: reloading a configuration a second time is the identity: the same peer map and the same
+    counter as after the first reload - whatever the peer map was before the first one. -/
+theorem reload_idempotent (old : List (Conn × Nat)) (conns : List Conn) (next : Nat) (hconns : IdsDistinct conns) :
+    reloadResult (reloadResult old conns next).1 conns (reloadResult old conns next).2
+      = reloadResult old conns next := by
+  have hm := order_is_configuration old conns next
+  have hids : PeerIdsDistinct (reloadResult old conns next).1 := by
+    unfold PeerIdsDistinct
+    rwa [hm]
+  have := noop_reload (reloadResult old conns next).1 (reloadResult old conns next).2 hids
+  rwa [hm] at this
+
+example : IdsDistinct exConns := by decide
+
+/-- the distinct-ids hypothesis is needed: with one id configured twice the second reload creates yet another
+    peer. -/
+example : reloadResult (reloadResult [] [b1, b1r] 0).1 [b1, b1r] (reloadResult [] [b1, b1r] 0).2
+    ≠ reloadResult [] [b1, b1r] 0 := by decide
+
+/-! ## 7. the generation invariant -/
+
+/-- `gens_stay_distinct`: if the peer objects of the old map are pairwise different and below the counter, and the
+    new configuration has distinct ids, then the peer objects of the new map are pairwise different and below
+    the new counter; the counter does not decrease. -/
+theorem gens_stay_distinct {old : List (Conn × Nat)} {conns : List Conn} {next : Nat}
+    (hdist : GensDistinct old) (hbelow : GensBelow old next) (hconns : IdsDistinct conns) :
+    GensDistinct (reloadResult old conns next).1 ∧
+      GensBelow (reloadResult old conns next).1 (reloadResult old conns next).2 ∧
+      next ≤ (reloadResult old conns next).2 := by
+  refine ⟨?_, ?_, plan_counter_le old conns next⟩
+  · unfold GensDistinct
+    rw [result_map_snd]
+    exact plan_gens_nodup hdist conns next hbelow (nodup_of_nodup_map _ _ hconns)
+  · rintro ⟨c, g⟩ hp
+    obtain ⟨d, hd, rfl⟩ := mem_result.1 hp
+    exact plan_gen_lt hbelow hd
+
+/-- the invariant of the peer map: distinct ids, distinct peer objects, all below the counter -/
+def Inv (s : List (Conn × Nat) × Nat) : Prop :=
+  PeerIdsDistinct s.1 ∧ GensDistinct s.1 ∧ GensBelow s.1 s.2
+
+instance (s : List (Conn × Nat) × Nat) : Decidable (Inv s) := by unfold Inv; infer_instance
+
+/-- `invariant_preserved`: a reload with a configuration of distinct ids preserves the invariant of the peer map. -/
+theorem invariant_preserved {old : List (Conn × Nat)} {conns : List Conn} {next : Nat}
+    (hinv : Inv (old, next)) (hconns : IdsDistinct conns) : Inv (reloadResult old conns next) := by
+  obtain ⟨_, hd, hb⟩ := hinv
+  have h := gens_stay_distinct hd hb hconns
+  refine ⟨?_, h.1, h.2.1⟩
+  unfold PeerIdsDistinct
+  rwa [order_is_configuration]
+
+/-- a sequence of reloads, one per configuration -/
+def reloads (s : List (Conn × Nat) × Nat) (cfgs : List (List Conn)) : List (Conn × Nat) × Nat :=
+  cfgs.foldl (fun s conns => reloadResult s.1 conns s.2) s
+
+/-- `invariant_preserved_many`: the invariant holds after any sequence of reloads with configurations of distinct
+    ids - in particular from the empty peer map at start-up. -/
+theorem invariant_preserved_many (cfgs : List (List Conn)) :
+    ∀ (s : List (Conn × Nat) × Nat), Inv s → (∀ conns ∈ cfgs, IdsDistinct conns) → Inv (reloads s cfgs) := by
+  induction cfgs with
+  | nil => intro s hs _; exact hs
+  | cons conns rest ih =>
+    intro s hs hall
+    show Inv (reloads (reloadResult s.1 conns s.2) rest)
+    apply ih
+    · exact invariant_preserved (old := s.1) (next := s.2) hs (hall conns List.mem_cons_self)
+    · exact fun c hc => hall c (List.mem_cons_of_mem _ hc)
+
+/-- the empty peer map of a starting daemon satisfies the invariant -/
+theorem inv_start : Inv ([], 0) := by decide
+
+example : Inv (exOld, 2) ∧ reloads ([], 0) [[b0, b1], exConns] = ([(b1r, 2), (b2, 3), (b0, 0)], 4) := by decide
+
+/-- after any sequence of reloads the last configuration is what the peer map lists -/
+theorem reloads_last (s : List (Conn × Nat) × Nat) (cfgs : List (List Conn)) (conns : List Conn) :
+    (reloads s (cfgs ++ [conns])).1.map (·.1) = conns := by
+  unfold reloads
+  rw [List.foldl_append]
+  exact order_is_configuration _ _ _
+
+/-! ## 8. listeners -/
+
+/-- `listeners_match`: after the reload exactly the configured listeners are open, each once. -/
+theorem listeners_match (old new : List String) :
+    (∀ l, l ∈ (reloadListeners old new).nowOpen ↔ l ∈ new) ∧ (reloadListeners old new).nowOpen.Nodup := by
+  constructor
+  · intro l
+    simp only [ListenerPlan.nowOpen, reloadListeners, List.mem_append, List.mem_filter, List.mem_eraseDups]
+    by_cases h : l ∈ old <;> simp [h]
+  · simp only [ListenerPlan.nowOpen, reloadListeners]
+    rw [List.nodup_append]
+    refine ⟨(nodup_eraseDups new).sublist List.filter_sublist,
+      (nodup_eraseDups new).sublist List.filter_sublist, ?_⟩
+    intro a ha b hb hab
+    subst hab
+    have h1 := (List.mem_filter.1 ha).2
+    have h2 := (List.mem_filter.1 hb).2
+    rw [h1] at h2
+    cases h2
+
+/-- `listeners_kept`: the listeners that stay open (never closed and re-opened) are exactly those configured before
+    and after; each once. -/
+theorem listeners_kept (old new : List String) :
+    (∀ l, l ∈ (reloadListeners old new).kept ↔ l ∈ old ∧ l ∈ new) ∧ (reloadListeners old new).kept.Nodup := by
+  constructor
+  · intro l
+    simp only [reloadListeners, List.mem_filter, List.mem_eraseDups, List.contains_iff_mem]
+    exact And.comm
+  · exact (nodup_eraseDups new).sublist List.filter_sublist
+
+/-- `listeners_closed`: the closed listeners are exactly those of the old configuration that are not configured
+    any more. -/
+theorem listeners_closed (old new : List String) (l : String) :
+    l ∈ (reloadListeners old new).closed ↔ l ∈ old ∧ l ∉ new := by
+  simp [reloadListeners, List.mem_filter]
+
+/-- `listeners_opened`: the newly opened listeners are exactly the configured ones that were not open before;
+    each once. -/
+theorem listeners_opened (old new : List String) :
+    (∀ l, l ∈ (reloadListeners old new).opened ↔ l ∈ new ∧ l ∉ old) ∧
+      (reloadListeners old new).opened.Nodup := by
+  constructor
+  · intro l
+    simp [reloadListeners, List.mem_filter]
+  · exact (nodup_eraseDups new).sublist List.filter_sublist
+
+/-- `listeners_kept_not_closed`: a kept listener was open before, is not closed and is not opened again. -/
+theorem listeners_kept_not_closed (old new : List String) (l : String)
+    (h : l ∈ (reloadListeners old new).kept) :
+    l ∈ old ∧ l ∉ (reloadListeners old new).closed ∧ l ∉ (reloadListeners old new).opened := by
+  have hk := ((listeners_kept old new).1 l).1 h
+  refine ⟨hk.1, ?_, ?_⟩
+  · rw [listeners_closed]
+    exact fun hc => hc.2 hk.2
+  · rw [(listeners_opened old new).1]
+    exact fun ho => ho.2 hk.1
+
+/-- `listeners_noop`: reloading an unchanged (duplicate-free) listener configuration closes nothing, opens
+    nothing and keeps every listener. -/
+theorem listeners_noop (old : List String) (hnd : old.Nodup) :
+    reloadListeners old old = { kept := old, opened := [], closed := [] } := by
+  unfold reloadListeners
+  rw [eraseDups_of_nodup old hnd]
+  have h1 : old.filter old.contains = old := by
+    rw [List.filter_eq_self]
+    intro a ha
+    simpa using ha
+  have h2 : old.filter (fun l => !old.contains l) = [] := by
+    rw [List.filter_eq_nil_iff]
+    intro a ha
+    simpa using ha
+  simp only [h1, h2]
+
+/-- a listener reload: `:6557` stays, the unix socket is closed, `:6558` (configured twice) is opened once -/
+example : reloadListeners ["0.0.0.0:6557", "/tmp/lmd.sock"] ["0.0.0.0:6558", "0.0.0.0:6557", "0.0.0.0:6558"]
+    = { kept := ["0.0.0.0:6557"], opened := ["0.0.0.0:6558"], closed := ["/tmp/lmd.sock"] } := by decide
+
+example : (["0.0.0.0:6557", "/tmp/lmd.sock"] : List String).Nodup := by decide
 
 end Lmd.C20
